@@ -14,6 +14,7 @@ import H263V.Lemmas.VlcTables
 import H263V.Thm.C12
 import H263V.Lemmas.SorensonPicture
 import H263V.Lemmas.GatherSpec
+import H263V.Lemmas.StreamAny
 namespace H263V.Thm.C03
 open H263V H263V.Gather H263V.Mv H263V.Spec.Vlc
 
@@ -98,6 +99,15 @@ theorem predicted_picture_round_trip (s : State) (hs : s.opts.sorenson = true) (
     decodeNextPicture s ⟨p.bits ++ rest, pos⟩ =
       semCore s (Spec.HeaderSpec.sorensonPicture p.hdr) p.mbs >>= fun r => .ok (commitPic s r.1 r.2, ⟨rest, pos + p.bits.length⟩) :=
   decode_spic s hs hr p w h hv rest pos
+
+open H263V.State H263V.Lemmas.StreamAny H263V.Lemmas.PictureRoundTrip in
+/-- The same for every header flavour (`Pic`: Sorenson, baseline PTYPE, PLUSPTYPE in either UFEP form): a valid P picture —
+or I picture — decodes to the bit-free semantics applied to the decoder's current reference. -/
+theorem predicted_picture_round_trip_any (s : State) (hr : s.running = 0) (p : Pic) (w h : Nat) (hv : p.Valid s w h)
+    (rest : Bits) (pos : Nat) :
+    decodeNextPicture s ⟨p.bits s ++ rest, pos⟩ =
+      semCore s (p.picture s) p.mbs >>= fun r => .ok (commitPic s r.1 r.2, ⟨rest, pos + (p.bits s).length⟩) :=
+  decode_pic s hr p w h hv rest pos
 
 open H263V.State H263V.Lemmas.PictureRoundTrip H263V.Spec.Syntax in
 /-- Not-coded macroblocks and intra macroblocks store zero vectors, so they contribute zero candidates to their neighbours'
